@@ -128,6 +128,37 @@ def body(case):
     except Exception as e:
         out.exc("build-dsl", e)
         return out
+    if has_paths(t):
+        # a data-path argument whose own serialisation refuses (allowed by C12) is outside the fragment
+        def path_objs(x, dpt=0):
+            if type(x).__name__ == "DataPath":
+                yield x
+            elif dpt == 0 and isinstance(x, (list, tuple)):
+                for i in x:
+                    yield from path_objs(i, 1)
+            elif dpt == 0 and isinstance(x, dict):
+                for i in x.values():
+                    yield from path_objs(i, 1)
+
+        def leaf_objs(cnd):
+            if hasattr(cnd, "children"):
+                for ch in cnd.children:
+                    yield from leaf_objs(ch)
+            else:
+                yield cnd
+
+        try:
+            for lo in leaf_objs(c):
+                for a in list(lo.callable.args) + list(lo.callable.kwargs.values()):
+                    for po in path_objs(a):
+                        try:
+                            po.to_part_specs()
+                        except Exception:
+                            out.label("path-serialisation-refused-skipped")
+                            out.nontrivial = False
+                            return out
+        except AttributeError:
+            pass
     try:
         js = c.to_json_like()
     except Exception as e:
